@@ -45,8 +45,9 @@ fn check_kind(bi: &BootInformation, typ: u32, first: Option<TagAt>, mem: &[u8], 
             let o = $opt;
             c.eq("getter-selects-first", o.map(|t| addr_of(t)), exp_addr);
             match o {
-                Some(t) => t,
-                None => return (c.bad, c.n),
+                // a wrongly selected tag is not decoded against another tag's bytes
+                Some(t) if Some(addr_of(t)) == exp_addr => t,
+                _ => return (c.bad, c.n),
             }
         }};
     }
